@@ -1,4 +1,5 @@
 import Golem.Props.C09
+import Golem.Props.C09Gen
 open Golem.Props.C09
 #print axioms fork_each_once
 #print axioms fork_all_consumed
@@ -8,3 +9,30 @@ open Golem.Props.C09
 #print axioms fork_closes
 #print axioms fork_map_perm
 #print axioms fork_filter_perm
+#print axioms gen_fork_closes_nodup
+#print axioms gen_fork_layout
+#print axioms fork_map_perm_gen
+#print axioms fork_filter_perm_gen
+#print axioms gen_fork_wrappers
+#print axioms Golem.Props.Stage.ForkCatch.catch_gen
+#print axioms Golem.Props.Stage.ForkCatch.catchF_gen
+#print axioms Golem.Props.Stage.ForkCatch.errch_gen
+#print axioms Golem.Props.Stage.ForkCatch.errchF_gen
+#print axioms Golem.Props.Stage.ForkMap.stage_gen
+#print axioms Golem.Props.Stage.ForkMap.cfg_gen
+#print axioms Golem.Props.Stage.ForkMap.init_gen
+#print axioms Golem.Props.Stage.ForkFMap.stage_gen
+#print axioms Golem.Props.Stage.ForkFMap.cfg_gen
+#print axioms Golem.Props.Stage.ForkFMap.init_gen
+#print axioms Golem.Props.Stage.ForkFilter.stage_gen
+#print axioms Golem.Props.Stage.ForkFilter.cfg_gen
+#print axioms Golem.Props.Stage.ForkFilter.init_gen
+#print axioms Golem.Props.Stage.ForkPartition.stage_gen
+#print axioms Golem.Props.Stage.ForkPartition.cfg_gen
+#print axioms Golem.Props.Stage.ForkPartition.init_gen
+#print axioms Golem.Props.Stage.ForkForEach.stage_gen
+#print axioms Golem.Props.Stage.ForkForEach.cfg_gen
+#print axioms Golem.Props.Stage.ForkForEach.init_gen
+#print axioms Golem.Props.Stage.ForkVoid.stage_gen
+#print axioms Golem.Props.Stage.ForkVoid.cfg_gen
+#print axioms Golem.Props.Stage.ForkVoid.init_gen
